@@ -83,6 +83,7 @@ func (s *Syncer) mainToShadow(ctx context.Context, txn *lmdb.Txn, tsNano header.
 		if err != nil {
 			return fmt.Errorf("create native iterator: %w", err)
 		}
+		it.OnWrite = s.noteTxnWrite
 		err = strategy.IterUpdate(txn, targetDBI, it)
 		if err != nil {
 			return fmt.Errorf("dbi %s strategy %s: %w", targetDBIName, "IterUpdate", err)
@@ -162,7 +163,8 @@ func (s *Syncer) shadowToMain(ctx context.Context, txn *lmdb.Txn) error {
 
 		// This iterator will insert the plain items without timestamp header
 		it := &PlainIterator{
-			DBIMsg: dbiMsg,
+			DBIMsg:  dbiMsg,
+			OnWrite: s.noteTxnWrite,
 		}
 		err = stratFunc(txn, targetDBI, it)
 		if err != nil {
